@@ -9,11 +9,12 @@ import (
 	"os"
 	"fmt"
 	"go/types"
+	"strings"
 
 	"golang.org/x/tools/go/ssa"
 )
 
-var binKinds = map[string]int{"add": 1, "sub": 2, "mul": 3, "div": 4, "gt": 5, "gte": 6, "lt": 7, "lte": 8, "eleq": 9}
+var binKinds = map[string]int{"add": 1, "sub": 2, "mul": 3, "div": 4, "gt": 5, "gte": 6, "lt": 7, "lte": 8, "eleq": 9, "maxbetween": 10}
 
 // dimsOf describes a shape: rank and a function giving the extent of axis i (i may be a bound variable).
 type dimsOf struct {
@@ -100,6 +101,28 @@ func (x *Exec) ufn(name string, nargs int) string {
 }
 
 func (x *Exec) nondetBool(hint string) string { return x.fresh(hint, SBool) }
+
+// genElem: "generic element" view of abstract tensor contents. gen_f32(c) (gen_f64, gen_b) is the
+// value that contents c hold at one fixed but arbitrary element position; the pointwise kernels
+// of gorgonia (equal shapes, or one scalar operand) relate the generic element of their result
+// to the generic elements of their operands. A clause proved about gen*(result) in terms of
+// gen*(input), with gen*(input) unconstrained, therefore holds for every element.
+func (x *Exec) genElem(sort, cont string) string {
+	name := map[string]string{SF32: "gen_f32", SF64: "gen_f64", SBool: "gen_b"}[sort]
+	x.uninterp(name, []string{SInt}, sort)
+	return sx(name, cont)
+}
+
+var genFloatKinds = []struct {
+	sort string
+	typ  types.Type
+	m    string // prefix of the scalar math library used by gorgonia for this element type
+	one  string
+	zero string
+}{
+	{SF32, types.Typ[types.Float32], "math32_", "((_ to_fp 8 24) RNE 1.0)", "((_ to_fp 8 24) RNE 0.0)"},
+	{SF64, types.Typ[types.Float64], "math_", "((_ to_fp 11 53) RNE 1.0)", "((_ to_fp 11 53) RNE 0.0)"},
+}
 
 // isTensorVal: is the interface{} argument a tensor?
 func (x *Exec) isTensorVal(v Val) string { return eq(v.tag(), x.denseTag()) }
@@ -196,6 +219,9 @@ func init() {
 			dt := x.tDtype(st, main)
 			bothT := and(ta, tb)
 			classOK := numericDtype(dt)
+			if name == "maxbetween" {
+				classOK = ordDtype(dt)
+			}
 			if cmp {
 				classOK = ordDtype(dt)
 				if name == "eleq" {
@@ -218,6 +244,37 @@ func init() {
 			}
 			res := x.newTensorObj(fr, name, x.shapeOfTensor(st, main), rdt, cont)
 			okT := x.define(name+"_ok", SBool, ok)
+			// generic element: pointwise IEEE semantics of the float kernels (a Go scalar operand is
+			// its own generic element)
+			for _, fk := range genFloatKinds {
+				ga := ite(ta, x.genElem(fk.sort, x.tCont(st, ra)), x.unbox(st, a, fk.typ).C[0])
+				gb := ite(tb, x.genElem(fk.sort, x.tCont(st, rb)), x.unbox(st, b, fk.typ).C[0])
+				isK := and(okT, eq(dt, fmt.Sprint(dtypeCodeOfBasic(fk.typ))))
+				var r string
+				switch name {
+				case "add", "sub", "mul", "div":
+					r = fpArith(name, fk.sort, ga, gb)
+					x.assume(fr.curPC, implies(isK, eq(x.genElem(fk.sort, cont), r)))
+					continue
+				case "maxbetween":
+					// MaxVS / MaxSV / VecMax kernels: the other operand replaces the tensor's element
+					// when it is greater (a NaN element therefore stays)
+					el, other := ite(ta, ga, gb), ite(ta, gb, ga)
+					x.assume(fr.curPC, implies(isK, eq(x.genElem(fk.sort, cont), ite(sx("fp.gt", other, el), other, el))))
+					continue
+				case "gt", "lt":
+					r = sx("fp."+name, ga, gb)
+				case "gte":
+					r = sx("fp.geq", ga, gb)
+				case "lte":
+					r = sx("fp.leq", ga, gb)
+				case "eleq":
+					r = sx("fp.eq", ga, gb)
+				}
+				if r != "" {
+					x.assume(fr.curPC, implies(isK, ite(same, eq(x.genElem(fk.sort, cont), ite(r, fk.one, fk.zero)), eq(x.genElem(SBool, cont), r))))
+				}
+			}
 			// WithReuse: the result is written into (and is) the reuse tensor
 			useReuse := and(okT, not(eq(reuse, "0")))
 			if reuse != "0" {
@@ -234,7 +291,7 @@ func init() {
 		key, name string
 		cmp       bool
 	}{{"Add", "add", false}, {"Sub", "sub", false}, {"Mul", "mul", false}, {"Div", "div", false},
-		{"Gt", "gt", true}, {"Gte", "gte", true}, {"Lt", "lt", true}, {"Lte", "lte", true}, {"ElEq", "eleq", true}} {
+		{"Gt", "gt", true}, {"Gte", "gte", true}, {"Lt", "lt", true}, {"Lte", "lte", true}, {"ElEq", "eleq", true}, {"MaxBetween", "maxbetween", false}} {
 		reg("gorgonia.org/tensor."+b.key, "elementwise "+b.name+": operands must have equal shape and dtype (or one scalar of the tensor's dtype) else error; fresh result of that shape (comparisons: bool unless AsSameType); content = kernel(contents); WithReuse writes into the given tensor",
 			binary(b.name, b.cmp))
 	}
@@ -246,7 +303,23 @@ func init() {
 			t := tensorRef(args[0])
 			x.oblige(fr, "nopanic", "nil-tensor", x.contractTags(fr), not(eq(t, "0")), fr.curPC, "tensor."+name+" on a nil tensor", "")
 			dt := x.tDtype(st, t)
-			res := x.newTensorObj(fr, name, x.shapeOfTensor(st, t), dt, sx(x.ufn("k_"+name, 1), x.tCont(st, t)))
+			cont := sx(x.ufn("k_"+name, 1), x.tCont(st, t))
+			res := x.newTensorObj(fr, name, x.shapeOfTensor(st, t), dt, cont)
+			for _, fk := range genFloatKinds {
+				g := x.genElem(fk.sort, x.tCont(st, t))
+				var r string
+				switch name {
+				case "neg", "abs":
+					r = sx("fp."+name, g)
+				case "exp", "tanh":
+					fnm := fk.m + strings.ToUpper(name[:1]) + name[1:]
+					x.uninterp(fnm, []string{fk.sort}, fk.sort)
+					r = sx(fnm, g)
+				}
+				if r != "" {
+					x.assume(fr.curPC, implies(eq(dt, fmt.Sprint(dtypeCodeOfBasic(fk.typ))), eq(x.genElem(fk.sort, cont), r)))
+				}
+			}
 			return x.resultTE(fr, i, class(dt), res)
 		}
 	}
@@ -334,7 +407,7 @@ func init() {
 		x.ghostSet(st, "t$cont", t, ite(okT, sx(x.ufn("k_transpose", 2), x.tCont(st, t), axes.base()), x.tCont(st, t)))
 		return x.errOnly(fr, okT)
 	})
-	reg("gorgonia.org/tensor.Transpose", "fresh tensor with permuted axes; error unless the axes are a permutation of 0..rank-1", func(x *Exec, fr *Frame, i *ssa.Call, fn *ssa.Function, args []Val) Val {
+	reg("gorgonia.org/tensor.Transpose", "fresh tensor with permuted axes; error unless the axes are a permutation of 0..rank-1; without axes: all axes reversed, no error", func(x *Exec, fr *Frame, i *ssa.Call, fn *ssa.Function, args []Val) Val {
 		st := fr.curSt
 		t := tensorRef(args[0])
 		axes := args[1]
@@ -345,6 +418,12 @@ func init() {
 			fmt.Sprintf("(forall ((i Int)) (=> (and (<= 0 i) (< i %s)) (and (<= 0 %s) (< %s %s))))", rank, ax("i"), ax("i"), rank),
 			fmt.Sprintf("(forall ((i Int) (j Int)) (=> (and (<= 0 i) (< i j) (< j %s)) (not (= %s %s))))", rank, ax("i"), ax("j")))
 		shp := x.tShp(st, t)
+		if n, lit := litInt(axes.slen()); lit && n == 0 {
+			// no axes: all axes reversed (AP.T); always succeeds
+			d := dimsOf{rank: rank, dim: func(k string) string { return sel2(h, shp, sub(sub(rank, "1"), k)) }}
+			res := x.newTensorObj(fr, "transpose", d, x.tDtype(st, t), sx(x.ufn("k_transpose", 2), x.tCont(st, t), "0"))
+			return x.resultTE(fr, i, "true", res)
+		}
 		d := dimsOf{rank: rank, dim: func(k string) string { return sel2(h, shp, ax(k)) }}
 		res := x.newTensorObj(fr, "transpose", d, x.tDtype(st, t), sx(x.ufn("k_transpose", 2), x.tCont(st, t), axes.base()))
 		return x.resultTE(fr, i, perm, res)
@@ -568,8 +647,35 @@ func init() {
 			f := args[1]
 			reuse, _ := x.funcOpts(fr, args[2])
 			cont := sx(x.ufn("k_apply", 2), x.tCont(st, t), f.pay())
+			okCond := x.nondetBool("apply_typeok")
+			if id, ok := litInt(f.pay()); ok && id >= 1 && int(id) <= len(x.funcByID) {
+				// a known scalar function: the call succeeds iff its parameter type is the tensor's
+				// element type (no options), and the generic element of the result is the function
+				// applied to the generic element of the operand (its body is executed symbolically)
+				g := x.funcByID[id-1]
+				sig := g.Signature
+				if sig.Params().Len() == 1 && sig.Results().Len() == 1 && g.Blocks != nil && !hasLoops(g) && x.inModule(g) {
+					if pb, isB := sig.Params().At(0).Type().Underlying().(*types.Basic); isB && types.Identical(sig.Params().At(0).Type(), sig.Results().At(0).Type()) {
+						srt := layout(pb)[0].Sort
+						if srt == SF32 || srt == SF64 || srt == SBool {
+							typeOK := eq(x.tDtype(st, t), fmt.Sprint(dtypeCodeOfBasic(pb)))
+							if reuse == "0" {
+								okCond = typeOK
+							} else {
+								okCond = and(typeOK, okCond)
+							}
+							arg := Val{T: sig.Params().At(0).Type(), C: []string{x.genElem(srt, x.tCont(st, t))}}
+							x.inlined[funcKey(g)] = true
+							r := x.inlineCall(fr, g, []Val{arg}, nil)
+							st = fr.curSt
+							x.assume(fr.curPC, implies(typeOK, eq(x.genElem(srt, cont), r.C[0])))
+						}
+					}
+				}
+			}
 			res := x.newTensorObj(fr, "apply", x.shapeOfTensor(st, t), x.tDtype(st, t), cont)
-			okT := x.define("apply_ok", SBool, x.nondetBool("apply_typeok"))
+			st = fr.curSt
+			okT := x.define("apply_ok", SBool, okCond)
 			useReuse := and(okT, not(eq(reuse, "0")))
 			if reuse != "0" {
 				x.oblige(fr, "frame", "reuse-write", x.contractTags(fr), or(not(useReuse), x.permitted(fr, "G$t$cont", reuse)), fr.curPC,
